@@ -10,6 +10,7 @@ import Hive.Gen.C11_Skel
 import Hive.Gen.C11_Stmts
 import Hive.Proofs.OMapWidth
 import Hive.Proofs.OMapMethods
+import Hive.Proofs.OMapDecode
 /-!
 # C11 — OrderedMap and Set: insertion-ordered model, exact diffs, no deadlock
 
@@ -368,6 +369,41 @@ theorem C11_codec_roundtrip {DK DV : Nat → Prop} {encK encV : Nat → Bytes} {
   have := AMap.foldl_set_append [] m (by simpa using hn)
   simp only [List.nil_append] at this
   rw [this]
+
+/-- **Decode into any receiver, for any bytes — success or failure.**  No hypothesis on the element decoders or on the
+input: `Decode` does not clear the receiver and `Set`s each entry as soon as it is decoded, so afterwards the receiver is
+the fold of `Set` over the entries `l` decoded before the end *or before the failure* (partial progress is kept), whose
+keys are pairwise distinct (duplicate-key refusal).  Consequently the keys the receiver had are a **prefix** of its keys
+afterwards — live keys keep their position, new keys follow in input order — and a key not among the decoded ones keeps
+its value.  `l` has at most `count` entries, exactly `count` when the call succeeds; if the count itself cannot be read
+nothing changes. -/
+theorem C11_codec_decode_into_receiver (decK decV : Dec) (m0 : AMap) (b : Bytes) :
+    ∃ l : List (Nat × Nat),
+      (decode decK decV m0 b).1 = l.foldl (fun c p => (AMap.set c p.1 p.2).1) m0 ∧
+      (l.map (·.1)).Nodup ∧
+      AMap.keys m0 <+: AMap.keys (decode decK decV m0 b).1 ∧
+      (∀ k, k ∉ l.map (·.1) → AMap.get (decode decK decV m0 b).1 k = AMap.get m0 k) ∧
+      (unle32 b = none → l = []) ∧
+      (∀ n rest, unle32 b = some (n, rest) → l.length ≤ n ∧ ((decode decK decV m0 b).2 ≠ none → l.length = n)) := by
+  unfold decode
+  cases hu : unle32 b with
+  | none =>
+    exact ⟨[], rfl, List.nodup_nil, List.prefix_refl _, fun _ _ => rfl, fun _ => rfl, by simp⟩
+  | some cr =>
+    obtain ⟨c, rest⟩ := cr
+    obtain ⟨l, hl, hnd, _, hlen, hfull⟩ := decodeLoop_fold decK decV c rest m0 4 []
+    refine ⟨l, hl, hnd, ?_, ?_, by simp, ?_⟩
+    · simp only; rw [hl]; exact keys_prefix_setFold l m0
+    · intro k hk; simp only; rw [hl]; exact get_setFold_of_not_mem l m0 k hk
+    · intro n r h
+      simp only [Option.some.injEq, Prod.mk.injEq] at h
+      obtain ⟨rfl, rfl⟩ := h
+      exact ⟨hlen, hfull⟩
+
+/-- a truncated input decoded into `{9:1, 1:0}`: the entry decoded before the failure is kept (the live key 1 keeps its
+place and gets the new value), the call reports failure -/
+example : decode decU16 decU8 [(9, 1), (1, 0)] [2, 0, 0, 0, 1, 0, 5, 2, 0] = ([(9, 1), (1, 5)], none) ∧
+    decode decU16 decU8 [(9, 1)] [2, 0, 0, 0, 1, 0, 5, 2, 0, 7] = ([(9, 1), (1, 5), (2, 7)], some 10) := by decide
 
 /-- After the fix a serialized map that mentions a key twice is rejected (before the fix the two
 entries were merged silently, so two different byte strings decoded to the same map). -/
